@@ -21,7 +21,7 @@ WORKERS = {"quick": 4, "thorough": 16}
 WTESTS = {"groups": ['parser_chains'], "tests": ['tests/dec', 'tests/decay']}
 REQUIRED = {"depth>=3": 50, "repeated-daughter-in-line": 50, "empty-block-daughter": 20, "S-cuts-at-depth>=2": 50, "lines>=4": 50, "not-found-raises": 20,
             "S-contains-direct-daughters": 50, "S-as-set": 20, "S-as-tuple": 20, "S-all-subsets": 10, "daughters>=3": 50, "alias-mother": 10,
-            "corpus-mother": 20, "photos-line-in-chain": 20, "conjugated-table-in-set": 10, "earlier-instance-queried-again": 20, "reparsed-without-conjugates": 5, "C09.build_decay_chains.is_unfolding": 300}
+            "corpus-mother": 20, "photos-line-in-chain": 20, "conjugated-table-in-set": 10, "S-contains-the-mother": 20, "zero-branching-fraction-line-with-decaying-daughter": 5, "earlier-instance-queried-again": 20, "reparsed-without-conjugates": 5, "C09.build_decay_chains.is_unfolding": 300}
 ASSUMPTIONS = ["table sets are acyclic (as quantified)", "the chain reports the model without the PHOTOS keyword; an absent parameter list '' == []"]
 
 
@@ -80,7 +80,7 @@ def gen_tables(ctx, max_paths=3000, max_size=1500, same_names_as=None):
                 if fs and r.random() < 0.3:
                     fs.append(fs[0])
                 mod = r.choice([("PHSP", []), ("VSS", []), ("HELAMP", ["1.0", "0.0", "-1.0", "0.5"]), ("SVS", []), ("VSS_BMIX", ["0.5"])])
-                lines.append({"bf": r.choice(["1.0", "0.5", ".25", "2E-3", "0.125", "0.0314", "0.3333"]), "fs": fs, "photos": r.random() < 0.25,
+                lines.append({"bf": r.choice(["1.0", "0.5", ".25", "2E-3", "0.125", "0.0314", "0.3333", "0", "0.0000", "0e0", "-0.1"]), "fs": fs, "photos": r.random() < 0.25,
                               "model": mod[0], "params": list(mod[1])})
             blocks.append({"k": "Decay", "m": m, "lines": lines})
         r.shuffle(blocks)
@@ -127,6 +127,9 @@ def stable_sets(ctx, T, m, parts):
         for _ in range(ctx.pick(6, 26)):
             out.append(r.sample(involved, r.randint(1, len(involved))))
     out.append(direct)
+    # S is any set of particles: it may contain the requested mother itself (its table is still unfolded line by line)
+    out.append([m])
+    out.append([m, *direct[:1]])
     return out
 
 
@@ -160,6 +163,10 @@ def check(ctx, p, T, m, S, stype, wit, workload, al=()):
         ctx.hit("alias-mother")
     if S:
         ctx.hit("S-as-" + stype)
+    if m in S:
+        ctx.hit("S-contains-the-mother")
+    if any(L.num(str(ln["bf"])) == 0 if isinstance(ln["bf"], str) else ln["bf"] == 0 for ln in T[m]) and any(x in T and x not in S for ln in T[m] if ln["bf"] == 0 for x in ln["fs"]):
+        ctx.hit("zero-branching-fraction-line-with-decaying-daughter")
     w = {**wit, "mother": m, "stable": sorted(S), "stable_type": stype}
     ok, got = ctx.guard("chain", w, (lambda: p.build_decay_chains(m, stable_particles=sarg)) if (S or stype != "list") else (lambda: p.build_decay_chains(m)))
     for v in contracts.drain():
